@@ -16,6 +16,9 @@ YEARS = ['1999', '2000', '2012', '1987', '2024', '1950']
 DYADIC = ['0.5', '0.25', '0.125', '0.0625', '0.03125']
 TINY = ['1e-200', '5e-324', '1e-300', '2.2250738585072014e-308', '1e-160', '0.0']
 # distinct doubles closer together than any sensible tolerance (1 ulp apart, or both far below 2**-52)
+# distinct probabilities inside the tolerances a "tidy" comparison or a rounding might use (relative 1e-6, 1e-9, 1e-12): they are
+# different numbers, to be ordered, grouped and saved as such
+NEAR = ['0.4000000002', '0.4', '0.3999999', '0.3499999999', '0.2999999999999', '0.3', '0.2000001', '0.2', '0.10000000001', '0.1', '0.09999999998']
 CLOSE = ['0.30000000000000004', '0.3', '0.10000000000000002', '0.1', '0.09999999999999999', '3e-17', '2e-17', '1e-17']
 
 
@@ -28,6 +31,8 @@ def _strictly_decreasing_probs(rng, n, mode):
         pool = DYADIC[:2] + TINY
     elif mode == 'close':
         pool = DYADIC[:1] + CLOSE
+    elif mode == 'near':
+        pool = DYADIC[:1] + NEAR
     elif mode == 'float':
         pool = None
     else:
@@ -102,7 +107,7 @@ def gen_ruleset(rng, max_structs=4, max_pos=4, max_groups=4, max_vals=3, mode=No
                 encoding='utf-8', omen=None, allow_dup_struct=True, markov_levels=None):
     """returns a spec for common.write_ruleset"""
     if mode is None:
-        mode = rng.choice(['dyadic', 'dyadic', 'float', 'tiny', 'close'])
+        mode = rng.choice(['dyadic', 'dyadic', 'float', 'tiny', 'close', 'near'])
     if markov is None:
         markov = rng.random() < 0.3
     nstruct = rng.randint(1, max_structs)
@@ -131,7 +136,7 @@ def gen_ruleset(rng, max_structs=4, max_pos=4, max_groups=4, max_vals=3, mode=No
     if mode == 'float':
         bps = [repr(rng.random()) for _ in structs]
     else:
-        pool = DYADIC if mode == 'dyadic' else (DYADIC[:2] + CLOSE[:5] if mode == 'close' else DYADIC[:2] + TINY[:3])
+        pool = DYADIC if mode == 'dyadic' else (DYADIC[:2] + CLOSE[:5] if mode == 'close' else (DYADIC[:2] if mode == 'near' else DYADIC[:2] + TINY[:3]))
         bps = [rng.choice(pool) for _ in structs]
     grammar = [[s, p] for s, p in zip(structs, bps)]
     omen_prob = []
@@ -139,7 +144,7 @@ def gen_ruleset(rng, max_structs=4, max_pos=4, max_groups=4, max_vals=3, mode=No
         pos = rng.randint(0, len(grammar))
         grammar.insert(pos, ['M', rng.choice(DYADIC)])
         # deep OMEN levels have probabilities (level share / keyspace) far below 2**-52: distinct values closer than any tolerance
-        lv = _strictly_decreasing_probs(rng, rng.randint(1, 3), 'close' if (mode == 'close' or rng.random() < 0.15) else 'dyadic')
+        lv = _strictly_decreasing_probs(rng, rng.randint(1, 3), 'near' if mode == 'near' else ('close' if (mode == 'close' or rng.random() < 0.15) else 'dyadic'))
         levels = rng.sample(range(1, 6), len(lv)) if not markov_levels else rng.sample(markov_levels, min(len(lv), len(markov_levels)))
         lv = lv[:len(levels)]
         omen_prob = [[str(l), p] for l, p in zip(levels, lv)]
